@@ -91,6 +91,29 @@ func runC15(c *Ctx) {
 		}
 	})
 
+	c.rule("C15.G3", "one reading of a backend error: the broadcaster judges a failed broadcast (is it 'already in the mempool' / 'already confirmed'?) by the error the configured MapCustomBroadcastError made of it - a custom backend speaks through that mapping only; every IsBroadcastError test of the handler and of rebroadcast is applied to a value that, where a mapping is configured, went through it (judged raw at one site and mapped at the other, a transaction the backend already has is refused on its first broadcast, never enters the pending set and is never rebroadcast)", func() {
+		mapF := c.field("pushtx", "Config", "MapCustomBroadcastError")
+		isB := c.funcObj("pushtx", "IsBroadcastError")
+		n := 0
+		for _, name := range []string{fnBHandler, fnRebroadcast} {
+			fn := c.fn(name)
+			for _, f := range ir.WithClosures(fn) {
+				for _, in := range find(f, callTo(isB)) {
+					n++
+					a := ir.CallOf(in).Args[0]
+					mapped := ir.DerivesFrom(a, func(x ssa.Value) bool {
+						call, ok := x.(*ssa.Call)
+						return ok && !call.Call.IsInvoke() && call.Call.StaticCallee() == nil && loadsField(mapF)(call.Call.Value)
+					})
+					c.verdict(mapped, c.nm(f)+" | IsBroadcastError judges the mapped error", c.at(in), "the tested error is (on the configured path) the result of cfg.MapCustomBroadcastError", "the error tested at "+c.at(in)+" never went through cfg.MapCustomBroadcastError: a custom backend's own error for 'already in the mempool' is taken for a rejection", c.at(in))
+				}
+			}
+		}
+		if n < 2 {
+			c.undecided("pushtx | IsBroadcastError tests", "", fmt.Sprintf("found %d, 2 tabled", n))
+		}
+	})
+
 	c.rule("C15.B3", "the handler is never held up by a caller that has gone: the verdict of a broadcast is sent back on the request's errChan with a plain send, after a caller may already have returned on the quit arm of its select; so every channel that is put into broadcastReq.errChan is made with room for that one verdict (capacity >= 1) - with an unbuffered channel the handler goroutine parks on the reply for good, no later transaction is broadcast or rebroadcast, and Stop waits for it for ever", func() {
 		ef := c.field("pushtx", "broadcastReq", "errChan")
 		n := 0
@@ -715,6 +738,21 @@ func runC15(c *Ctx) {
 		gB, odd := relGuard("numInvalid/numPeersResponded >= threshold", fn, isRatio, thr, token.GEQ)
 		okShape := len(odd) == 0 && gB.found == 1
 		c.verdict(okShape, c.nm(fn)+" | invalid ratio compared with `>=` against the threshold", c.P.Pos(fn.Pos()), "numInvalid/numPeersResponded >= qo.invalidTxThreshold (in any equivalent form)", "the invalid-ratio comparison is missing or is not equivalent to ratio >= threshold (a ratio equal to the threshold must reject): "+join(odd), c.ats(ratio)...)
+		// "reaches" includes the boundary: the share and the threshold are
+		// rounded alike. The threshold is kept in a narrow float type; the
+		// quotient computed in that type rounds to the threshold exactly when
+		// the true share equals it. Widening the stored threshold instead
+		// (0.6 as float32 is 0.60000002..) puts it above a share of exactly
+		// 3/5 computed in the wider type, and `>=` quietly behaves like `>`.
+		thrT := c.field("neutrino", "queryOptions", "invalidTxThreshold").Type()
+		for _, st := range gB.sites {
+			bo, isB := st.site.(*ssa.BinOp)
+			if !isB {
+				continue
+			}
+			same := types.Identical(bo.X.Type().Underlying(), thrT.Underlying()) && types.Identical(bo.Y.Type().Underlying(), thrT.Underlying())
+			c.verdict(same, c.nm(fn)+" | share and threshold are compared in the threshold's own precision", c.at(bo), "both operands have the type the threshold is stored in ("+thrT.String()+")", "the share is compared with the threshold in "+bo.X.Type().String()+" while the threshold is stored as "+thrT.String()+": a share exactly at the threshold no longer reaches it", c.at(bo))
+		}
 		gA := equalIs("len(replies) vs len(rejections)", lenEq, true)
 		g := guard{name: "all repliers rejected || invalid ratio >= threshold", sites: append(append([]guardSite{}, gA.sites...), gB.sites...), unchecked: append(gA.unchecked, gB.unchecked...)}
 		c.guarded(fn, g, 2, "return a broadcast error", nonNil, 2, gDominate)
